@@ -808,7 +808,16 @@ func genC05(e *emitter, r *rng, tier string) {
 					b.handles = append(b.handles, hinfo{pos, maxInt})
 					b.add("fwd:%d:%d", len(b.handles)-1, r.pick([]int{1, 5, 100, 120}))
 				case 5:
-					b.add("fmt:0:%%.%df", r.pick([]int{3, 99, 100, 101, 220}))
+					switch r.intn(4) {
+					case 0:
+						b.add("fmt:0:%%.%df", r.pick([]int{3, 99, 100, 101, 220}))
+					case 1: // with a width / flag: the padded path of Format
+						b.add("fmt:0:%%%s%d.%d%s", r.pickS([]string{"", "-"}), r.pick([]int{12, 30, 60, 130}), r.pick([]int{3, 20, 99, 101}), r.pickS([]string{"f", "e", "g", "v"}))
+					case 2:
+						b.add("str:0")
+					default:
+						b.add("pr:0:r%d~%d:%s", r.pick([]int{0, 40, 95}), r.pick([]int{101, 130, 210}), r.pickS([]string{"-", "R10.C5", "R0"}))
+					}
 				case 6:
 					b.add("we:0:%d", pos)
 					b.handles = append(b.handles, hinfo{0, pos})
@@ -834,6 +843,53 @@ func genC05(e *emitter, r *rng, tier string) {
 			e.line("conc", fmt.Sprintf("v%d %s %s", v, desc, strings.Join(progs, "|")), res)
 		}
 		e.count(fmt.Sprintf("C05.readers%d", readers))
+	}
+	// many goroutines doing the SAME kind of work at the same time, on one Number and on separate
+	// Numbers: package-level scratch state (pools, caches, shared buffers) shows as a wrong result
+	// or, in the race build, as a data race
+	m := 25
+	if tier == "thorough" {
+		m = 300
+	}
+	for i := 0; i < m; i++ {
+		ns := numSpec{desc: fmt.Sprintf("%s:%d:%d", r.pickS([]string{"S", "C", "R"}), 2+r.intn(40), 1+r.intn(9)), length: -2, allV: true}
+		kind := r.intn(4)
+		var progs []string
+		for k := 0; k < 4; k++ {
+			var st []string
+			for j := 0; j < 10; j++ {
+				switch kind {
+				case 0:
+					st = append(st, fmt.Sprintf("fmt:0:%%%d.%d%s", r.pick([]int{8, 25, 40, 70}), r.pick([]int{3, 18, 33, 60}), r.pickS([]string{"f", "e", "g"})))
+				case 1:
+					st = append(st, fmt.Sprintf("pr:0:r%d~%d:%s", r.intn(30), 40+r.intn(80), r.pickS([]string{"-", "R10.C5", "R7.C0.S0"})))
+				case 2:
+					// on a bounded view: a digit that never occurs must not make the search endless
+					if j == 0 {
+						st = append(st, "we:0:300")
+					}
+					st = append(st, fmt.Sprintf("ffn:1:%d:%d", r.intn(10), 1+r.intn(3)))
+				default:
+					st = append(st, "str:0", fmt.Sprintf("at:0:%d", r.intn(150)))
+				}
+			}
+			progs = append(progs, strings.Join(st, ";"))
+		}
+		desc := ns.desc
+		if r.coin(60) {
+			desc = "X" + desc
+		}
+		for v := 1; v <= 3; v++ {
+			if e.exhausted() {
+				return
+			}
+			res := guarded(20*time.Second, func() string { return runConc(v, desc, progs) })
+			if res == "hang" {
+				res = "!!hang"
+			}
+			e.line("conc", fmt.Sprintf("v%d %s %s", v, desc, strings.Join(progs, "|")), res)
+		}
+		e.count("C05.same_work_in_parallel")
 	}
 }
 
